@@ -136,10 +136,12 @@ func (t *runTarget) Evaluate(engine runner.Engine) error {
 		return nil
 	}
 
-	// A target that generates files may be running only because one of them is missing. If the
-	// process dies after the body has re-created the file, nothing else would make the next
-	// build run the target again, so remember that it must run until it has succeeded.
-	if len(t.target.generates()) != 0 && !info.Rerun {
+	// A target may be running for a reason that leaves no trace once the process dies: one of
+	// its generated files is missing (and the interrupted body re-creates it), or a dependency
+	// re-executed and reproduced the same stamp. The old record would then still match and an
+	// interrupted body, which may have half-written its outputs, would count as up to date. So
+	// remember that the target must run until its body has succeeded.
+	if IsTarget(label) && !info.Rerun {
 		pending := info
 		pending.Rerun = true
 		if err := proj.saveTargetInfo(label, pending); err != nil {
